@@ -96,6 +96,56 @@ theorem C15_iter_equals_traditional (c : Conn) (a : Args) (k : Nat) (hinv : Inv 
         have := takeN_raise he k
         exact Or.inr (by simp only [outcome]; rw [this.1, this.2])
 
+/-! ### argument forms -/
+
+/-- **An int subclass is its value.**  pywbem.Uint32 / Uint64 (and every other `int` subclass except bool) given for
+    MaxObjectCount or OperationTimeout is canonicalised to the plain integer it stands for; a bool and any foreign
+    type are "not an integer"; None stays None. -/
+theorem C15_int_subclass_is_its_value (v : Int) :
+    (PyInt.uint32 v).canon = (PyInt.int v).canon ∧ (PyInt.uint64 v).canon = (PyInt.int v).canon ∧
+    (∀ m : PyInt, m.value? = some v → m.canon = .int v) ∧
+    (∀ b, (PyInt.bool b).canon = .other) ∧ PyInt.other.canon = .other ∧ PyInt.none.canon = .none := by
+  refine ⟨rfl, rfl, ?_, fun _ => rfl, rfl, rfl⟩
+  intro m hm
+  cases m <;> simp [PyInt.value?] at hm <;> simp [PyInt.canon, hm]
+
+/-- **Forms are equivalent to their canonical form.**  Two calls that differ only in the FORM of MaxObjectCount /
+    OperationTimeout (same canonical value: e.g. `5`, `Uint32(5)`, `Uint64(5)`) are the same call: on every connection
+    state they yield the same objects, end the same way, and leave the same connection and server state, for every
+    number `k` of `next()` calls. -/
+theorem C15_int_forms_equivalent (c : Conn) (a : Args) (m m' t t' : PyInt) (k : Nat)
+    (hm : m.canon = m'.canon) (ht : t.canon = t'.canon) :
+    takeN c (.notStarted (a.withForms m t)) k = takeN c (.notStarted (a.withForms m' t')) k := by
+  simp [Args.withForms, hm, ht]
+
+/-- … in particular for any two int-like forms of the same integers -/
+theorem C15_same_value_same_behaviour (c : Conn) (a : Args) (m m' t t' : PyInt) (k : Nat) (v w : Int)
+    (hm : m.value? = some v) (hm' : m'.value? = some v) (ht : t.value? = some w) (ht' : t'.value? = some w) :
+    takeN c (.notStarted (a.withForms m t)) k = takeN c (.notStarted (a.withForms m' t')) k := by
+  have h := (C15_int_subclass_is_its_value v).2.2.1
+  have h' := (C15_int_subclass_is_its_value w).2.2.1
+  exact C15_int_forms_equivalent c a m m' t t' k (by rw [h m hm, h m' hm']) (by rw [h' t ht, h' t' ht'])
+
+/-- **A bool is not an integer here, in every mode** (flag None / True / False, server with or without pull): a bool
+    OperationTimeout, or a bool MaxObjectCount with a valid OperationTimeout, raises TypeError at the first `next()`;
+    nothing is sent, nothing is learned.  And zero or a negative MaxObjectCount in ANY int-like form raises the
+    documented ValueError (not a TypeError). -/
+theorem C15_bool_is_not_an_integer (c : Conn) (a : Args) (b : Bool) :
+    (∀ m : PyInt, next c (.notStarted (a.withForms m (.bool b))) = (c, .finished, .raise .typeError)) ∧
+    (∀ t : PyInt, validateTimeout t.canon = none →
+      next c (.notStarted (a.withForms (.bool b) t)) = (c, .finished, .raise .typeError)) ∧
+    (∀ (m t : PyInt) (v : Int), validateTimeout t.canon = none → m.value? = some v → v ≤ 0 →
+      next c (.notStarted (a.withForms m t)) = (c, .finished, .raise .valueError)) := by
+  refine ⟨fun m => ?_, fun t ht => ?_, fun m t v ht hm hv => ?_⟩
+  · exact C15_validation_first c _ _ (by simp [validate, Args.withForms, PyInt.canon, validateTimeout])
+  · exact C15_validation_first c _ _ (by
+      show validate { a with max := (PyInt.bool b).canon, timeout := t.canon } = some .typeError
+      simp only [validate, ht]; rfl)
+  · have hc := (C15_int_subclass_is_its_value v).2.2.1 m hm
+    exact C15_validation_first c _ _ (by
+      show validate { a with max := m.canon, timeout := t.canon } = some .valueError
+      simp only [validate, ht, hc, validateMax, hv, if_true])
+
 /-! ### pull path -/
 
 /-- **Iter = traditional (pull path).**  Connection with the family's flag at None or True, server with
@@ -621,5 +671,13 @@ example : (next (demoConn none false) (.notStarted { demoArgs with fam := .assoc
       .raise .typeError ∧
     outcome (demoConn (some false) false) { demoArgs with fam := .assocInst, srcIsClass := true } 2 =
       ([6, 10], none) := by decide
+
+-- argument forms: Uint32(2) behaves as 2; True is rejected also where the traditional path is in effect
+example : outcome (demoConn none false) (demoArgs.withForms (.uint32 2) .none) 3 =
+    outcome (demoConn none false) (demoArgs.withForms (.int 2) .none) 3 := by decide
+example : (next (demoConn (some false) true) (.notStarted (demoArgs.withForms (.bool true) .none))).2.2 =
+    .raise .typeError ∧
+    (next (demoConn (some false) true) (.notStarted (demoArgs.withForms (.uint32 0) (.uint64 10)))).2.2 =
+    .raise .valueError := by decide
 
 end C15
